@@ -1,7 +1,8 @@
 (* C08 — parsed values do not share memory with the caller's buffer (partial: the Go
    memory model is represented by the provenance abstraction of Model/Heap.v; what ties it
    to the code is the correspondence check, which overwrites the real buffer). *)
-From Model Require Import Bytes Entries Prim Cert KAC Mapping Sig LS RI Heap.
+From Model Require Import Bytes Entries Prim Cert KAC Mapping Sig LS RI Heap AliasReviewed.
+From Gen Require Import Aliases.
 From Proofs Require Import HeapProofs.
 Open Scope N_scope.
 
@@ -28,6 +29,16 @@ Theorem C08_leaseset2_only_options_alias : forall x extra,
   exists l r, read_lease_set2 x = Ok (l, r) /\ has_pairs (l2_options l) = true.
 Proof. exact leaseset2_only_options_alias. Qed.
 Print Assumptions C08_leaseset2_only_options_alias.
+(* the same fact about the CODE: the aliasing summary regenerated from the Go source (go/ssa,
+   translator/aliases: may the first result of an exported byte-slice function share memory with its
+   argument?) says "no" for every function except those that return views by design, and every
+   function that builds one of the structures the property names is in the summary with "no" *)
+Theorem C08_source_summary_no_unintended_views : forallb alias_ok alias_summary = true.
+Proof. vm_compute. reflexivity. Qed.
+Theorem C08_source_summary_covers_the_named_structures :
+  forallb (fun f => match alias_lookup alias_summary f with Some false => true | _ => false end) c08_functions = true.
+Proof. vm_compute. reflexivity. Qed.
+Print Assumptions C08_source_summary_covers_the_named_structures.
 Example C08_nonvacuous : bytes_change E_ReadLease2 (repeatN 7 40) [] = Ok false /\
   bytes_change E_ReadMapping [0;6;1;97;61;1;98;59] [] = Ok true.
 Proof. vm_compute. auto. Qed.
